@@ -3,3 +3,4 @@ import NTV.Proofs.C02
 #print axioms NTV.C02.same_lattice_and_rank
 #print axioms NTV.C02.canonical
 #print axioms NTV.C02.union_is_hnf_of_stack
+#print axioms NTV.C02.determinant_is_index
